@@ -87,6 +87,9 @@ func (g G) drawPre(p *Plan, o *mixOpts) {
 			if g.chance(lab+".norelay", 15) {
 				ps.RelayState = ""
 			}
+			if g.chance(lab+".noarid", 6) {
+				ps.AuthRequestID = "" // a record written without the SP's AuthnRequest ID
+			}
 			switch g.weighted(lab+".acsk", 70, 10, 20) {
 			case 1:
 				ps.ACS = ""
@@ -243,7 +246,11 @@ func (g G) planMix(prop string, o *mixOpts) *Plan {
 		case 17:
 			p.Steps = append(p.Steps, Step{K: "mutate", Mut: "rotateMetaKey"})
 		case 18:
-			p.Steps = append(p.Steps, Step{K: "mutate", Mut: "reregister", A: g.intn(lab+".sp", 4), B: g.intn(lab+".how", 7)})
+			if g.chance(lab+".moveapp", 15) {
+				p.Steps = append(p.Steps, Step{K: "mutate", Mut: "moveApp", A: g.intn(lab+".sp", 4), B: g.intn(lab+".sp2", 4)})
+			} else {
+				p.Steps = append(p.Steps, Step{K: "mutate", Mut: "reregister", A: g.intn(lab+".sp", 4), B: g.intn(lab+".how", 7)})
+			}
 		case 19:
 			p.Steps = append(p.Steps, Step{K: "mutate", Mut: "deleteSP", A: g.intn(lab+".sp", 4)})
 		case 20:
